@@ -28,8 +28,42 @@ pub fn enabled() -> bool {
     ENABLED.load(Ordering::Relaxed)
 }
 
+/// With GEODESY_VERIF_TRACE_DIR set, every event is also appended (under the
+/// sink mutex, so in sequence order) as one JSON line to `<dir>/<pid>.ndjson`.
+/// This records programs that never call `enable`, e.g. the crate's own tests.
+fn trace_file() -> Option<&'static Mutex<std::fs::File>> {
+    static FILE: std::sync::OnceLock<Option<Mutex<std::fs::File>>> = std::sync::OnceLock::new();
+    FILE.get_or_init(|| {
+        let dir = std::env::var("GEODESY_VERIF_TRACE_DIR").ok()?;
+        let path = format!("{dir}/{}.ndjson", std::process::id());
+        let file = std::fs::OpenOptions::new()
+            .create(true)
+            .append(true)
+            .open(path)
+            .ok()?;
+        Some(Mutex::new(file))
+    })
+    .as_ref()
+}
+
+fn json_string(s: &str) -> String {
+    let mut out = String::with_capacity(s.len() + 2);
+    out.push('"');
+    for c in s.chars() {
+        match c {
+            '"' => out.push_str("\\\""),
+            '\\' => out.push_str("\\\\"),
+            c if (c as u32) < 0x20 => out.push_str(&format!("\\u{:04x}", c as u32)),
+            c => out.push(c),
+        }
+    }
+    out.push('"');
+    out
+}
+
 pub fn emit(kind: &'static str, fields: Vec<(&'static str, String)>) {
-    if !enabled() {
+    let file = trace_file();
+    if !enabled() && file.is_none() {
         return;
     }
     let thread = format!("{:?}", std::thread::current().id());
@@ -39,12 +73,29 @@ pub fn emit(kind: &'static str, fields: Vec<(&'static str, String)>) {
     };
     sink.0 += 1;
     let seq = sink.0;
-    sink.1.push(Event {
-        seq,
-        thread,
-        kind,
-        fields,
-    });
+    if let Some(file) = file {
+        use std::io::Write;
+        let mut line = format!(
+            "{{\"seq\":{seq},\"thread\":{},\"ev\":{}",
+            json_string(&thread),
+            json_string(kind)
+        );
+        for (k, v) in &fields {
+            line += &format!(",{}:{}", json_string(k), json_string(v));
+        }
+        line += "}\n";
+        if let Ok(mut f) = file.lock() {
+            let _ = f.write_all(line.as_bytes());
+        }
+    }
+    if enabled() {
+        sink.1.push(Event {
+            seq,
+            thread,
+            kind,
+            fields,
+        });
+    }
 }
 
 pub fn drain() -> Vec<Event> {
